@@ -157,8 +157,19 @@ fn parse_variable(pair: Pair<Rule>, pc: &mut PositionCalculator) -> Result<Posit
 fn parse_number(pair: Pair<Rule>, pc: &mut PositionCalculator) -> Result<Positioned<Number>> {
     debug_assert_eq!(pair.as_rule(), Rule::number);
     let pos = pc.step(&pair);
+    let text = pair.as_str();
+    // `Number`'s own parser does not round float literals correctly (it can be off by
+    // one ULP), so floats go through the standard library.
+    let number = if text.contains(['.', 'e', 'E']) {
+        text.parse::<f64>()
+            .ok()
+            .and_then(Number::from_f64)
+            .ok_or_else(|| "number out of range".to_string())
+    } else {
+        text.parse::<Number>().map_err(|err| err.to_string())
+    };
     Ok(Positioned::new(
-        pair.as_str().parse().map_err(|err| Error::Syntax {
+        number.map_err(|err| Error::Syntax {
             message: format!("invalid number: {}", err),
             start: pos,
             end: None,
